@@ -29,7 +29,8 @@ EXPLANATION = (
     "transaction; the eligibility predicate's truth table equals the property's list; the _safe seed consults "
     "state and _holding; wake-ups after every eligibility-changing handler; job_loop returns only after an empty "
     "poll; defer cap. Decides that caches are recomputed when their inputs change, not that the recursive SQL "
-    "computes the intended fixed points."
+    "computes the intended fixed points. "
+    "Also: every conditional flag trigger's WHEN clause is folded over the value domains of its OLD/NEW columns and must hold for every change of its OF columns; the dependency delete trigger flags the producers of the lost edge's source file; the definition of 'needed' (shared with C11) and the BUILT->notify pairing are claimed here as well."
 )
 ASSUMPTIONS = [
     "SQLite's authorizer reports every column a prepared statement (and the triggers it fires) can read or write",
